@@ -242,7 +242,15 @@ def substitution_rules(repo):
     out = []
     stores = [s for s in fi.node.body if isinstance(s, ast.Assign) and isinstance(s.targets[0], ast.Subscript)]
     role = "each listed (example, position) column is zeroed and then its character set, on a clone"
-    if len(stores) != 2:
+    accum = [n for n in ast.walk(fi.node) if isinstance(n, ast.Call) and (
+        dotted(n.func) in ("torch.sparse_coo_tensor", "torch.sparse.FloatTensor", "torch.index_add", "torch.scatter_add") or
+        (isinstance(n.func, ast.Attribute) and n.func.attr in ("index_add_", "index_add", "scatter_add_", "scatter_add", "scatter_reduce_", "scatter_reduce")) or
+        (isinstance(n.func, ast.Attribute) and n.func.attr in ("index_put_", "index_put") and any(k.arg == "accumulate" and const_value(k.value) is True for k in n.keywords)))]
+    if len(stores) != 2 and accum:
+        from ..core import named
+        out.append(named("SUBST", fi, role, "`%s` ACCUMULATES at repeated coordinates (a substitution listed twice writes 2, not a one-hot 1); an indexed "
+                         "assignment sets" % unparse(accum[0])[:50], accum[0]))
+    elif len(stores) != 2:
         out.append(unrecognised("SUBST", fi, role, "expected two index stores, found %d" % len(stores)))
     else:
         t0 = [unparse(i) for i in stores[0].targets[0].slice.elts] if isinstance(stores[0].targets[0].slice, ast.Tuple) else []
